@@ -39,6 +39,17 @@ BOUNDS = {
 }
 
 
+THOROUGH = {
+    "semver_order": "600 random versions (numbers up to u64::MAX, identifier lists up to length 4 over [0-9a-zA-Z-]), 60000 random pairs/triples: reference precedence, antisymmetry, transitivity, == consistency",
+    "pep440_order": "600 random versions (epoch, 1-4 release numbers, pre/post/dev with and without numbers, locals up to 3 segments), 60000 random pairs/triples: reference key, antisymmetry, transitivity, == consistency",
+    "sanitize": "120000 random texts up to length 24 over ASCII, separators, whitespace and non-ASCII letters/digits/case-folding look-alikes under random settings",
+    "sanitize_uint_claim": "see sanitize",
+    "semver_roundtrip": "60000 random strings generated from the SemVer grammar (numbers of any width, identifiers up to 6 characters, lists up to 4)",
+    "semver_from_zerv": "76 more random component lists per section (up to 6 / 5 / 4 components) x 324 assignments, about 2.4 million (schema, vars) pairs",
+    "pep440_from_zerv": "as semver_from_zerv",
+}
+
+
 def build():
     if "r" in _built:
         return _built["r"]
@@ -60,16 +71,20 @@ def build():
     return _built["r"]
 
 
-def run(family, timeout=600):
+def run(family, timeout=900, tier="quick", seed=0):
     """-> dict(family, status 'no-cex'|'cex'|'error', lines[], cases, bound, wall_s)"""
     ok, err, bt = build()
-    res = {"family": family, "bound": BOUNDS.get(family, ""), "build_s": bt}
+    res = {"family": family, "bound": BOUNDS.get(family, "") + (" — thorough tier: plus the family's seeded random exploration (" + THOROUGH.get(family, "none for this family") + f"; seed {seed})" if tier == "thorough" else ""), "build_s": bt}
     if not ok:
         res.update(status="error", lines=["cex crate does not build against the working tree: " + err])
         return res
     t0 = time.time()
     try:
-        p = subprocess.run([BIN, family], capture_output=True, text=True, timeout=timeout, stdin=subprocess.DEVNULL)
+        argv = [BIN, family] + (["thorough", str(seed)] if tier == "thorough" else [])
+        # a non-UTC zone and a non-C locale: any dependence of the real code on local time or locale shows up as a
+        # disagreement with the UTC / ASCII oracles of the families
+        env = dict(os.environ, TZ="Pacific/Kiritimati", LC_ALL="tr_TR.UTF-8", LANG="tr_TR.UTF-8")
+        p = subprocess.run(argv, capture_output=True, text=True, timeout=timeout, stdin=subprocess.DEVNULL, env=env)
     except subprocess.TimeoutExpired:
         res.update(status="error", lines=["timeout"])
         return res
